@@ -311,3 +311,10 @@ class SeqV:
         self.length = length
         self.elem = elem
         self.name = name
+
+
+class OpaqueArgs:
+    """`.args` of an exception object whose constructor arguments are unknown (only usable as `*exc.args`)"""
+
+    def __init__(self, owner):
+        self.owner = owner
